@@ -153,6 +153,7 @@ private:
   template<typename WrapperType, typename ProxyType>
   SQUIDS_ALWAYS_INLINE SU_vector& assignProxy(const ProxyType& proxy){
     using traits=detail::operation_traits<ProxyType>;
+    SU_vector* robbed=nullptr; //operand whose self-owned storage is taken over, if any
     
     if(!traits::elementwise && !traits::no_alias_target &&
        (components==proxy.suv1.components ||
@@ -174,16 +175,20 @@ private:
         ptr_offset=proxy.suv1.ptr_offset;
         isinit=proxy.suv1.isinit;
         isinit_d=proxy.suv1.isinit_d;
-        if(isinit)
+        if(isinit){
           const_cast<SU_vector&>(proxy.suv1).isinit=false; //complete the theft
+          robbed=&const_cast<SU_vector&>(proxy.suv1);
+        }
       }
       else if(proxy.mayStealArg2()){ //if the operation is component-wise and suv2 is an rvalue
         components=proxy.suv2.components; //take suv2's backing storage
         ptr_offset=proxy.suv2.ptr_offset;
         isinit=proxy.suv2.isinit;
         isinit_d=proxy.suv2.isinit_d;
-        if(isinit)
+        if(isinit){
           const_cast<SU_vector&>(proxy.suv2).isinit=false; //complete the theft
+          robbed=&const_cast<SU_vector&>(proxy.suv2);
+        }
       }
       else{
         alloc_aligned(dim,size,components,ptr_offset);
@@ -192,6 +197,8 @@ private:
     }
     //evaluate in place
     proxy.compute(detail::vector_wrapper<WrapperType>{dim,components});
+    if(robbed) //the operand must not keep referring to storage it no longer owns
+      robbed->release_stolen();
     return(*this);
   }
   
@@ -210,6 +217,14 @@ private:
   detail::cache<mem_cache_entry,32> storage_cache[SQUIDS_MAX_HILBERT_DIM+1];
 #endif
   
+  ///Leave this vector empty after its self-owned storage has been taken over by
+  ///another vector, as the move constructor does.
+  void release_stolen(){
+    dim=0;
+    size=0;
+    components=nullptr;
+  }
+
   ///A helper function which tries to put a memory block into the cache rather
   ///than deleting it.
   void deallocate_mem(){
@@ -317,9 +332,12 @@ public:
     else
       alloc_aligned(dim,size,components,ptr_offset);
     
-    if(components==proxy.suv1.components && proxy.suv1.isinit)
+    bool robbed=(components==proxy.suv1.components && proxy.suv1.isinit);
+    if(robbed)
       const_cast<SU_vector&>(proxy.suv1).isinit=false; //complete the theft
     proxy.compute(detail::vector_wrapper<detail::AssignWrapper>{dim,components});
+    if(robbed) //the operand must not keep referring to storage it no longer owns
+      const_cast<SU_vector&>(proxy.suv1).release_stolen();
   }
 
   ///\brief Construct an SU_vector from a GSL matrix
